@@ -89,6 +89,7 @@ def determinism_selftest(prop, base_seed, count, workers=(1, 16)):
 
 def check_property(prop, tier, base_seed, runs=None, workers=None, wall_cap=None, write_evidence=True):
     t0 = time.time()
+    os.environ["CINCOSIM_TIER"] = tier
     scn = scenario_for(prop)
     known_doc = load_known()
     open_known = [f for f in known_doc.get("findings", []) if f["property"] == prop and f.get("status", "open") == "open"]
